@@ -595,6 +595,12 @@ pub fn is_did(s: &str) -> bool {
     && id.bytes().all(|b| b.is_ascii_alphanumeric() || matches!(b, b'.' | b'-' | b'_' | b':' | b'%'))
 }
 
+/// Harness-side DID-URL syntax check: a DID, optionally followed by path, query and fragment without blanks or controls.
+pub fn is_did_url(s: &str) -> bool {
+  let end = s.find(['#', '?', '/']).unwrap_or(s.len());
+  is_did(&s[..end]) && s[end..].bytes().all(|b| b > 0x20 && b < 0x7f)
+}
+
 pub fn variant_names(errs: &[identity_credential::validator::JwtValidationError]) -> Vec<&'static str> {
   errs.iter().map(|e| e.into()).collect()
 }
